@@ -151,10 +151,18 @@ class World(object):
         p = Party(name, gen, os.path.join(self.dir, "%s-%d.db" % (name, gen)))
         self.parties[name] = p
         self._open(p)
-        from axolotl.util.keyhelper import KeyHelper
-        recs = KeyHelper.generatePreKeys(1, NPREKEYS)
-        for r in recs:
-            p.store.storePreKey(r.getId(), r)
+        # the one-time prekeys are generated the way a connect does it: by the manager's own level_prekeys (its batch
+        # size set on the instance), judged by "durable is live" when it returns - i.e. before anything else commits
+        p.manager.COUNT_GEN_PREKEYS = NPREKEYS
+        recs, exc = self.call(p, "level_prekeys", p.manager.level_prekeys)
+        if exc is not None or not recs or [r.getId() for r in recs] != list(range(1, NPREKEYS + 1)):
+            self.problems.append(("oracle:level_prekeys", {"party": name, "what": "level_prekeys on an empty store did "
+                                  "not return prekeys 1..%d" % NPREKEYS, "exception": repr(exc)[:200],
+                                  "returned": len(recs or [])}))
+            from axolotl.util.keyhelper import KeyHelper
+            recs = KeyHelper.generatePreKeys(1, NPREKEYS)
+            for r in recs:
+                p.store.storePreKey(r.getId(), r)
         p.manager.generate_signed_prekey()
         p.manager.set_prekeys_as_sent(recs)
         self.nextpk[name] = 1
